@@ -20,10 +20,7 @@ class Run(object):
         self.cost = lab.Cost('c0', cfg['cost'])
         self.extra = tuple(FL(cfg.get('extra') or []))
         init = cfg['init']
-        if init['kind'] == 'point':
-            s.SetInitialPoints(FL(init['x0']))
-        else:
-            s.SetRandomInitialPoints(FL(init['lo']), FL(init['hi']))
+        lab.apply_init(s, init)
         self.box = None
         b = cfg.get('bounds')
         if b:
@@ -154,7 +151,11 @@ def configs(draw, tier='quick', solvers=lab.SOLVERS, need_constraint=False, allo
         cfg['npop'] = draw(st.integers(max(dim, lab.min_npop(cfg['strategy'])), 8))
         cfg['CR'] = draw(st.sampled_from([0.9, 0.5, 0.0, 1.0, 0.2]))
         cfg['F'] = draw(st.sampled_from([0.8, 0.5, 1.0, 0.3]))
-    if kind in ('DE', 'DE2') and draw(st.booleans()):
+    if kind in ('DE', 'DE2') and box is None and draw(st.integers(0, 5)) == 0:
+        lo_ = draw(st.integers(-5, 0))
+        cfg['init'] = dict(kind='sampled', dist=draw(st.sampled_from(['randint', 'randint', 'uniform', 'normal'])), lo=lo_,
+                           hi=lo_ + draw(st.integers(2, 8)))
+    elif kind in ('DE', 'DE2') and draw(st.booleans()):
         if box is not None and draw(st.booleans()):
             cfg['init'] = dict(kind='random', lo=list(box[0]), hi=list(box[1]))
         else:
